@@ -1,6 +1,6 @@
 (* C01 property theorems.  Only statements closed by [exact]; each followed by Print Assumptions.
    All are about the definitions of C01/Model.v that C01/Harness.v evaluates against the implementation. *)
-From Miller Require Import Base.Bytes Base.Record C01.Model C01.ProofsUtil C01.ProofsTsv C01.ProofsDkvp C01.ProofsCsv.
+From Miller Require Import Base.Bytes Base.Record C01.Model C01.ProofsUtil C01.ProofsTsv C01.ProofsDkvp C01.ProofsCsv C01.ProofsCsv2.
 Open Scope char_scope.
 
 (* ---- TSV ---- *)
@@ -101,6 +101,13 @@ Theorem C01_csv_roundtrip_partial :
 Proof. exact csv_roundtrip. Qed.
 Print Assumptions C01_csv_roundtrip_partial.
 
+(* without a header line: --headerless-csv-output then --implicit-csv-header, keys 1..n *)
+Theorem C01_csv_roundtrip_headerless_partial :
+  forall qa crlf comma lazy dedupe ragged recs, wf_csv_pos crlf comma recs = true ->
+  obind (write_csv true qa crlf comma recs) (read_csv true lazy dedupe ragged comma) = Some recs.
+Proof. exact csv_roundtrip_headerless. Qed.
+Print Assumptions C01_csv_roundtrip_headerless_partial.
+
 Theorem C01_csv_roundtrip_crlf_in_cell_refuted :
   exists recs, rect recs = true /\
     obind (write_csv false false false "," recs) (read_csv false false true false ",") <> Some recs.
@@ -118,6 +125,7 @@ Example C01_nonvacuous_csv :
   wf_csv false "," [[(B "a", B "x,""y"""); (B "b c", bs [10;13;13;34]%N); (B "", B ""); (B "d", B " lead"); (B "e", B "\."); (B "f", B "1");
                      (B "g", B "2"); (B "h", B "3"); (B "i", B "4"); (B "j", B "5"); (B "k", B "6"); (B "l", bs [195;169;255]%N)]] = true
   /\ wf_csv true ";" [[(B "a", bs [10;34;59]%N)]; [(B "a", B "")]] = true
+  /\ wf_csv_pos false "," [[(B "1", B "x,y"); (B "2", B "")]; [(B "1", B ""); (B "2", bs [13;34]%N)]] = true
   /\ rfc_file "," [LF] (B """a"",b" ++ [LF]) [[B "a"; B "b"]].
 Proof.
   repeat split; try (vm_compute; reflexivity).
